@@ -82,6 +82,8 @@ class Ctx:
         return info
 
     def where(self, info_or_module, node=None):
+        if info_or_module is None:
+            return f'mido:{getattr(node, "lineno", 0)}'
         m = getattr(info_or_module, 'module', info_or_module)
         line = getattr(node, 'lineno', None) or getattr(getattr(info_or_module, 'node', None), 'lineno', 0)
         name = getattr(info_or_module, 'qname', None)
